@@ -25,6 +25,7 @@
 #include "wopn_file.h"
 #include <string.h>
 #include <stdlib.h>
+#include "../opnmidi_verif.h"
 
 static const char       *wopn2_magic1 = "WOPN2-BANK\0";
 static const char       *wopn2_magic2 = "WOPN2-B2NK\0";
@@ -226,6 +227,7 @@ WOPNFile *WOPN_LoadBankFromMem(void *mem, size_t length, int *error)
 
     WOPNBank *bankslots[2];
     uint16_t  bankslots_sizes[2];
+    VERIF_GHOST(size_t verif_length0 = length;)
 
 #define SET_ERROR(err) \
 {\
@@ -312,8 +314,10 @@ WOPNFile *WOPN_LoadBankFromMem(void *mem, size_t length, int *error)
     if(version >= 2) /* Bank names and LSB/MSB titles */
     {
         for(i = 0; i < 2; i++)
+        VERIF_LOOP(wopn_load_names_i)
         {
             for(j = 0; j < bankslots_sizes[i]; j++)
+            VERIF_LOOP(wopn_load_names_j)
             {
                 if(length < 34)
                 {
@@ -336,6 +340,7 @@ WOPNFile *WOPN_LoadBankFromMem(void *mem, size_t length, int *error)
         else
             insSize = WOPN_INST_SIZE_V1;
         for(i = 0; i < 2; i++)
+        VERIF_LOOP(wopn_load_ins_i)
         {
             if(length < (insSize * 128) * (size_t)bankslots_sizes[i])
             {
@@ -344,8 +349,10 @@ WOPNFile *WOPN_LoadBankFromMem(void *mem, size_t length, int *error)
             }
 
             for(j = 0; j < bankslots_sizes[i]; j++)
+            VERIF_LOOP(wopn_load_ins_j)
             {
                 for(k = 0; k < 128; k++)
+                VERIF_LOOP(wopn_load_ins_k)
                 {
                     WOPNInstrument *ins = &bankslots[i][j].ins[k];
                     WOPN_parseInstrument(ins, cursor, version, 1);
@@ -497,6 +504,7 @@ int WOPN_SaveBankToMem(WOPNFile *file, void *dest_mem, size_t length, uint16_t v
 
     WOPNBank *bankslots[2];
     uint16_t  bankslots_sizes[2];
+    VERIF_GHOST(size_t verif_length0 = length;)
 
     if(version == 0)
         version = wopn_latest_version;
@@ -544,8 +552,10 @@ int WOPN_SaveBankToMem(WOPNFile *file, void *dest_mem, size_t length, uint16_t v
     if(version >= 2)
     {
         for(i = 0; i < 2; i++)
+        VERIF_LOOP(wopn_save_names_i)
         {
             for(j = 0; j < bankslots_sizes[i]; j++)
+            VERIF_LOOP(wopn_save_names_j)
             {
                 if(length < 34)
                     return WOPN_ERR_UNEXPECTED_ENDING;
@@ -563,13 +573,16 @@ int WOPN_SaveBankToMem(WOPNFile *file, void *dest_mem, size_t length, uint16_t v
         else
             ins_size = WOPN_INST_SIZE_V1;
         for(i = 0; i < 2; i++)
+        VERIF_LOOP(wopn_save_ins_i)
         {
             if(length < (ins_size * 128) * (size_t)bankslots_sizes[i])
                 return WOPN_ERR_UNEXPECTED_ENDING;
 
             for(j = 0; j < bankslots_sizes[i]; j++)
+            VERIF_LOOP(wopn_save_ins_j)
             {
                 for(k = 0; k < 128; k++)
+                VERIF_LOOP(wopn_save_ins_k)
                 {
                     WOPNInstrument *ins = &bankslots[i][j].ins[k];
                     WOPN_writeInstrument(ins, cursor, version, 1);
